@@ -201,6 +201,18 @@ var concScenarios = []scenario{
 		s.doOn(a, 0, 1, true, putfh(s.fh(1)), closeOp(oa.sid))
 		s.doOn(a, 0, 1, true, putfh(s.fh(1)))
 	}},
+	{"downgrade-during-io-then-upgrade", func(s *script) {
+		// An in-flight WRITE alone keeps the write share after the
+		// downgrade; the upgrade must treat its leaf open as redundant.
+		a := s.client("A", 1)
+		s.do(a, putroot(), openName("o1", "a", shRW, "NOCREATE"), getfh())
+		oa := a.open("o1", s.fh(1))
+		h := s.hold(a, 0, 1, "WRITE", s.fh(1), oa.sid)
+		s.doOn(a, 0, 1, true, putfh(s.fh(1)), downgrade(oa.sid, shR))
+		s.doOn(a, 0, 1, true, putfh(s.fh(1)), openFH("o1", shW, "FH"))
+		s.release(h)
+		s.doOn(a, 0, 1, true, putfh(s.fh(1)), closeOp(oa.sid))
+	}},
 	{"io-in-flight-lease", func(s *script) {
 		a := s.client("A", 1)
 		b := s.client("B", 1)
